@@ -333,3 +333,8 @@ func verifC10Collide(typ int) {
 func VerifC10_CollideCounter() { verifC10Collide(0) }
 func VerifC10_CollideTimer()   { verifC10Collide(2) }
 func VerifC10_CollideSet()     { verifC10Collide(3) }
+
+// a metric that arrives without any tag
+func VerifC10_Filter1_0_1() { verifC10One(1, 1, 0, 1, false) }
+func VerifC10_Filter1_0_0() { verifC10One(1, 1, 0, 0, false) }
+func VerifC10_Filter2_0_0() { verifC10One(2, -1, 0, 0, false) }
